@@ -53,13 +53,13 @@ MANIFEST = {
             "from the Put/Lookup/Delete call sites of the managers. Once-and-for-all theorems: for every pair passing the decidable check and all member values "
             "within their widths, decoding the Go-marshalled bytes at the C offsets returns the values and the size is the declared one; on every byte string the Go "
             "reader and the C member reads agree. The regenerated pairs are then decided by computation (finite), a pair that is not ok is reported with the "
-            "offending member. Key derivations are Gallina functions on both sides: MAC, VLAN pair and ALG key agree for all inputs; circuit-id keys agree for lengths "
-            "1..32 and are refuted above; every Go IPv4 helper leaves the address byte-reversed relative to the network-order word the C reads (agreement iff the "
+            "offending member. Key derivations are Gallina functions on both sides: MAC keys agree for every hardware address of six or more bytes (first six bytes; refuted below six, where Go returns 0), VLAN pair and ALG key agree for all inputs; circuit-id keys agree for lengths "
+            "1..32 at both option-82 positions the program recognises (Model of the extraction with its two branches as coded) and are refuted above; every Go IPv4 helper leaves the address byte-reversed relative to the network-order word the C reads (agreement iff the "
             "address is a byte palindrome), likewise the LPM key. The constants and the derivations are tied to reality on every run: real Go values written by the "
             "real Loader/managers (cilium/ebpf) into kernel maps of the C-declared size are read back raw and must equal the Model's bytes; clang's offsetof tables "
             "(BPF target and x86-64) must equal the BTF-derived layouts; the real programs under BPF_PROG_TEST_RUN must find exactly the keys the Model says they find.",
     "note": "Theorems are about the generic layout model and hand-written models of the derivation functions; the tie is the differential run (exhaustive over the "
-            "triples, sampled over values). Known findings: IPv4 byte order at six helper sites, LPM key, circuit-ids longer than 32 bytes. Fixed: PortBlock widths, "
+            "triples, sampled over values). Known findings: IPv4 byte order at six helper sites, LPM key, circuit-ids longer than 32 bytes, hardware addresses shorter than 6 bytes, option 82 holding only a one-byte circuit-id. Fixed: PortBlock widths, "
             "NATSession padding, per-CPU stats reads. walledgarden has no C side; HashCircuitID has no C side.",
     "technique": "translator (BTF + go/types) -> Rocq: generic encode/decode theorems + vm_compute decision per regenerated pair + key-derivation theorems; differential "
                  "correspondence through real kernel maps and BPF_PROG_TEST_RUN",
@@ -343,7 +343,7 @@ def run_inner(ctx):
         "samples": samples or [{"note": "no cases ran"}],
         "kernel_bpf": drv["kernel_bpf"], "kernel_test_runs": drv["kernel_test_runs"], "bpf_object_dir": bpfdir, "bpf_build_ok": objs_ok,
         "unexercised_pairs": drv["unexercised_pairs"],
-        "refuted_clauses": ["C06_ipv4_key_agree_refuted", "C06_lpm_key_agree_refuted", "C06_circuit_key_agree_refuted"],
+        "refuted_clauses": ["C06_ipv4_key_agree_refuted", "C06_lpm_key_agree_refuted", "C06_circuit_key_agree_refuted", "C06_mac_key_agree_refuted", "C06_circuit_extract_short_option_refuted"],
         "broken_obligations": cause, "notes": notes,
         "modelled_not_verified": SPEC["modelled"],
     }
